@@ -21,4 +21,9 @@ def _load(n):
 # partition independence at codec level (one call == two calls) for the sample-granular codecs
 HARNESSES += [h for h in _load("sg_common").sg_harnesses(("SEL_RD",)) if h.name.split(".")[1] in ("pcm_16le", "pcm_24be", "float_le", "double_be", "ulaw", "alaw", "pcm_u8", "pcm_32be")]
 
+# block codec staging layer (K-block contract): IMA ADPCM, WAV and AIFF layouts
+HARNESSES += _load("blk_common").ima_harnesses(("SEL_SEEKREAD",))
+
+HARNESSES += _load("blk_common").ms_harnesses(("SEL_SEEKREAD",))
+
 META = {"assumptions": ["I_open handle invariant", "K-seek: codec seek returns the target or -1"], "outside": []}
